@@ -83,13 +83,13 @@ Proof.
   cbn [r_val snd]. unfold cwf in H. rewrite Forall_forall in H. apply nth_error_In in E. exact (H _ E).
 Qed.
 
-Theorem expanded_no_repeat t q : WF t -> expands q = true -> Forall (fun n => n = 1%nat) (res_reps (m_get false t q)).
+Theorem expanded_no_repeat pad t q : WF t -> expands q = true -> Forall (fun n => n = 1%nat) (res_reps (m_get false pad t q)).
 Proof.
   intros [[Hwr Hwc] Hcw] He. destruct q; cbn [m_get res_reps expands] in *; try discriminate.
   - (* get_cell, keep_repeated = False *) destruct keep; [discriminate|]. cbn [concat app map]. constructor; [|constructor].
     unfold m_get_cell. destruct (theight t <=? _); reflexivity.
   - apply Forall_map', Forall_concat. unfold m_get_cells.
-    destruct area as [[[[x y] z] e]|]; apply Forall_map'; (eapply Forall_impl; [|apply (m_traverse_wf false _ _ t Hcw)]); intros r Hr; cbn [orb];
+    destruct pad, area as [[[[x y] z] e]|]; apply Forall_map'; (eapply Forall_impl; [|apply (m_traverse_wf false _ _ t Hcw)]); intros r Hr; cbn [negb orb];
       try apply Forall_app; try split; try apply m_row_traverse_reps; try apply pad_cells_reps; exact Hr.
   - apply Forall_map', Forall_concat. unfold m_cells. apply Forall_map'.
     eapply Forall_impl; [|apply (m_traverse_wf false None None t Hcw)]. intros r Hr. apply m_row_traverse_reps. exact Hr.
